@@ -552,7 +552,20 @@ func sshGCheck(e *c14env, argv []string, f eff) (string, bool) {
 		return string(b), err == nil
 	}
 	var bad []string
-	if v, ok := val(f.host); ok && !strings.EqualFold(got["hostname"], v) {
+	// ssh -G prints numeric destinations canonicalised by inet_aton ("0" -> 0.0.0.0, "127.1" ->
+	// 127.0.0.1): for hosts made of digits and dots only the host names are not compared textually
+	numericHost := func(h string) bool {
+		if h == "" {
+			return false
+		}
+		for _, c := range h {
+			if !(c >= '0' && c <= '9') && c != '.' && c != 'x' && c != 'X' {
+				return false
+			}
+		}
+		return true
+	}
+	if v, ok := val(f.host); ok && !numericHost(v) && !strings.EqualFold(got["hostname"], v) {
 		bad = append(bad, fmt.Sprintf("hostname %q vs %q", got["hostname"], v))
 	}
 	if v, ok := val(f.port); ok && got["port"] != v {
